@@ -36,8 +36,8 @@ type c19Op struct {
 
 func (o c19Op) String() string { return fmt.Sprintf("%s(%d)", o.kind, o.n) }
 
-var c19Payloads = [][]byte{{}, []byte("a"), []byte("bcd"), bytes.Repeat([]byte("0123456789"), 10)}
-var c19Reads = []int{0, 1, 2, 200}
+var c19Payloads = [][]byte{{}, []byte("a"), []byte("bcd"), bytes.Repeat([]byte("0123456789"), 10), bytes.Repeat([]byte("0123456789abcdef"), 4400)} // the last one is > 64 KiB
+var c19Reads = []int{0, 1, 2, 200, 100000}
 
 func newC19Sys(ctor string) *c19Sys {
 	s := &c19Sys{ctor: ctor}
@@ -62,7 +62,12 @@ func (s *c19Sys) Reset() {
 	}
 	s.fifo, s.wn, s.dead = s.fifo[:0], 0, false
 }
-func (s *c19Sys) Key() string { return string(s.fifo) }
+func (s *c19Sys) Key() string {
+	if len(s.fifo) > 256 {
+		return fmt.Sprintf("%d:%s", len(s.fifo), digest(s.fifo))
+	}
+	return string(s.fifo)
+}
 
 func (s *c19Sys) stampPayload(i int) []byte {
 	p := append([]byte{}, c19Payloads[i]...)
@@ -222,6 +227,27 @@ func c19ReadableLen(c *mc.Ctx, k c19RL) {
 type c19CB struct {
 	Which string `json:"callback"` // check | read | write
 	Steps []int  `json:"steps"`    // 0 register f1, 1 register f2, 2 register nil, 3 call
+	Index int    `json:"index"`    // position in the deterministic enumeration: the bridges keep process-global state, so a replay runs cases 0..Index
+}
+
+func c19CallbackCases() []c19CB {
+	var out []c19CB
+	var rec func(steps []int)
+	rec = func(steps []int) {
+		if len(steps) > 0 {
+			for _, w := range []string{"check", "read", "write"} {
+				out = append(out, c19CB{Which: w, Steps: append([]int{}, steps...), Index: len(out)})
+			}
+		}
+		if len(steps) == 4 {
+			return
+		}
+		for st := 0; st < 4; st++ {
+			rec(append(steps, st))
+		}
+	}
+	rec(nil)
+	return out
 }
 
 var errCBA = errors.New("callback error A")
@@ -373,21 +399,9 @@ func c19Run(c *mc.Ctx) {
 	}
 	if c.Mine() {
 		// callbacks: all sequences of <= 4 steps over {register f1, register f2, register nil, call}; the state is process-global, so one worker does it
-		var rec func(steps []int)
-		rec = func(steps []int) {
-			if len(steps) > 0 {
-				for _, w := range []string{"check", "read", "write"} {
-					c19Callbacks(c, c19CB{Which: w, Steps: append([]int{}, steps...)})
-				}
-			}
-			if len(steps) == 4 {
-				return
-			}
-			for st := 0; st < 4; st++ {
-				rec(append(steps, st))
-			}
+		for _, k := range c19CallbackCases() {
+			c19Callbacks(c, k)
 		}
-		rec(nil)
 		// the three 'not registered' errors are specific to their callback
 		apache.RegisterCheckTStruct(nil)
 		apache.RegisterThriftRead(nil)
@@ -427,7 +441,17 @@ func init() {
 			case "generic":
 				replayAs(raw, func(k c19RL) { c19ReadableLen(c, k) })
 			default:
-				replayAs(raw, func(k c19CB) { c19Callbacks(c, k) })
+				replayAs(raw, func(k c19CB) {
+					// process-global state (registration, anything the bridge caches): re-run the enumeration up to the recorded case
+					scratch := mc.NewCtx("C19", "quick", 0, 1, 0, 1<<40)
+					for _, p := range c19CallbackCases() {
+						if p.Index >= k.Index {
+							break
+						}
+						c19Callbacks(scratch, p)
+					}
+					c19Callbacks(c, k)
+				})
 			}
 		},
 	})
